@@ -45,7 +45,7 @@ def programs(ctx):
     progs = progs[:(9 if quick else len(progs))] + extra
     if not quick:
         rng.shuffle(progs)
-        progs = progs[:36]
+        progs = progs[:24]
     out = []
     for p in progs:
         q = []
@@ -142,7 +142,7 @@ def run(ctx):
                                         ExcKinds='{"other"}', MaxNest=1, MaxRetry=0))]
     else:
         cfgs = [('crash', txnlib.mc_cfg(inv, txnlib.ALL_PROP, NActors=2, AllowCrash='TRUE', Forms='{"cm","dec"}',
-                                        ExcKinds='{"other"}', MaxNest=1)),
+                                        Kinds='{"opt","imm"}', ExcKinds='{"other"}', MaxNest=1)),
                 ('crash-2threads', txnlib.mc_cfg(inv, txnlib.ALL_PROP, NActors=3, NThreads=2, AllowCrash='TRUE', Forms='{"cm"}',
                                                  Kinds='{"imm"}', ExcKinds='{"other"}', MaxNest=1, MaxWrites=1, MaxRetry=0)),
                 ('errors', txnlib.mc_cfg(inv, txnlib.ALL_PROP, MaxSess=2))]
